@@ -299,6 +299,10 @@ SELFTEST = [
          replace='return code * (uint16_t) 15 + (modifier & 0x07);', rule='R3'),
     dict(id='decoder-delta-bias-3', file='src/ace_time/internal/Brokers.h',
          find='return ((int8_t)((uint8_t)deltaCode & 0x0f) - 4) * 15;', replace='return ((int8_t)((uint8_t)deltaCode & 0x0f) - 3) * 15;', rule='R1'),
+    dict(id='decoder-delta-mask-lost', file='src/ace_time/internal/Brokers.h',
+         find='return ((int8_t)((uint8_t)deltaCode & 0x0f) - 4) * 15;', replace='return ((int8_t)deltaCode - 4) * 15;', rule='R3', construct='toDeltaMinutes'),
+    dict(id='encoder-basic-minute-remainder-dropped', file='tools/zonedb/argenerator.py', find='    if timeMinute > 0:', replace="    if scope == 'extended' and timeMinute > 0:",
+         rule='R3', construct='_to_code_and_modifier'),
     dict(id='decoder-offset-shift', file='src/ace_time/internal/Brokers.h',
          find='return (offsetCode * 15) + (((uint8_t)deltaCode & 0xf0) >> 4);', replace='return (offsetCode * 15) + (((uint8_t)deltaCode & 0xf0) >> 3);', rule='R3'),
     dict(id='accessor-reads-wrong-field', file='src/ace_time/internal/Brokers.h', unique=False, nth=0,
